@@ -80,6 +80,10 @@ class Report:
             raise AnalysisError(f"{self.prop}: anchor/idiom not found: {what}")
 
     def check_floors(self) -> None:
+        # a check that already reports a violation is not passing vacuously: a shortfall of instances is then part of
+        # the breakage it reports (a removed flag / counter / handler), not a blind spot
+        if self.violations:
+            return
         for rid, r in self.rules.items():
             if r["instances"] < r["floor"]:
                 raise AnalysisError(
